@@ -142,7 +142,7 @@ def run(tier, seed):
         lines = [l for l in open(trace).read().split("\n") if l.strip()]
         runs = core.split_runs(lines)
         tested = []
-        if not rejects:
+        if not rejects and not v.violations:
             sl = [lines[s:e] for (s, e) in runs if json.loads(lines[s]).get("run") == "selftest"][0]
             evs = [json.loads(x) for x in sl]
             info = None
